@@ -897,6 +897,35 @@ theorem c17_offer_is_uninterleaved_accept (s : Acc.State) (p : Ident) (m : Nat) 
   · simp [hv, Acc.abs, Acc.absConns, step, List.filterMap_append]
   · simp [hv, Acc.abs, Acc.absConns, step, List.filterMap_append]
 
+/-- **`Router.Stop` is final**: from a state in which the router is closed, whatever is scheduled afterwards —
+identities arriving, tests, registrations, launches, turns of receive loops, `SetValidPeers` calls, peers
+writing — nothing more is handed to the dispatcher and the router stays closed.  Together with
+`c17_accept_interleaved`: everything ever dispatched was dispatched before the stop, over a connection that
+had passed the test. -/
+theorem c17_stop_final (s : Acc.State) (h : s.closed = true) (acts : List Acc.Act) :
+    (Acc.run s acts).log = s.log ∧ (Acc.run s acts).closed = true := by
+  induction acts generalizing s with
+  | nil => exact ⟨rfl, h⟩
+  | cons a l ih =>
+    have hstep : (Acc.step s a).log = s.log ∧ (Acc.step s a).closed = true := by
+      cases a <;> simp only [Acc.step, Acc.upd_log, Acc.upd_closed, h, and_self]
+      case recv c =>
+        cases hc : s.conns[c]? with
+        | none => simp [h]
+        | some cn =>
+          simp only [and_true]
+          have : (Acc.recvConn true cn).2 = none := by
+            unfold Acc.recvConn; split <;> simp
+          rw [this]
+    obtain ⟨h1, h2⟩ := ih (Acc.step s a) hstep.2
+    exact ⟨by rw [Acc.run_cons, h1, hstep.1], by rw [Acc.run_cons]; exact h2⟩
+
+/-- … read over schedules: what a schedule dispatches after a `stop` act is nothing -/
+theorem c17_nothing_after_stop (pre post : List Acc.Act) :
+    (Acc.run {} (pre ++ .stop :: post)).log = (Acc.run {} pre).log := by
+  rw [Acc.run_append, Acc.run_cons]
+  exact (c17_stop_final _ rfl post).1
+
 /-! ### the transition system: witnesses and non-vacuity -/
 
 /-- the filter acts at the test, not afterwards — also inside the accept path: a `SetValidPeers` that
